@@ -63,6 +63,20 @@ def run_roundtrip(ctx, pt):
                 rt(ctx, c, o, blk)
 
 
+def pts_inter(tier):
+    return [(a, b) for a in F.CIPHERS for b in F.CIPHERS]
+
+
+def run_inter(ctx, pt):
+    """round trips on an object after another object (another cipher / size / key) has been constructed and used"""
+    a, b = pt
+    A = F.make(a, F.fixed_keys(a)[1], ramp(16, 3, 7))
+    B = F.make(b, F.fixed_keys(b)[2], expander(16, 9))
+    for (c, o) in ((a, A), (b, B), (a, A)):
+        for blk in F.fixed_blocks(c)[1:]:
+            rt(ctx, c + '/with-another-live-instance', o, blk) if False else rt(ctx, c, o, blk)
+
+
 # ---- component pairs on their entire (or enumerated) domain -----------------------------
 
 def pts_components(tier):
@@ -191,6 +205,8 @@ def subchecks():
     return [
         Sub('roundtrip', pts_roundtrip, run_roundtrip, engine='P', exhaustive=False,
             bound='per cipher (AES-128/192/256, DES, TDEA, Serpent, Threefish-256/512/1024): key family x 3 blocks, 3 keys x block family, Threefish tweak family: dec(enc(B))==B, enc(dec(B))==B, lengths (quick: every 4th family member)'),
+        Sub('interleaved-instances', pts_inter, run_inter, engine='H',
+            bound='every ordered pair of the 9 cipher configurations: A constructed, then B, round trips on A, B, A'),
         Sub('components', pts_components, run_components, engine='D',
             bound='Sbox/Sbox_inv all 256 values in all 16 positions; Shift/InvShiftRows on tag states; Mix/InvMixColumns on every single-active-byte state and two-active-byte states over {01,02,80,FF}^2; DES IP/IPinv, Serpent _IP/_FP, _L/_Linv on single-bit family + patterns; Serpent _S/_Sinv 8 boxes x 32 positions x 16 values; rol/ror every width 1..10 (thorough 12) x amount x value and widths 28,32,64,128 x every amount x single-bit family; Salsa/ChaCha index maps'),
     ]
